@@ -11,4 +11,5 @@ for c in "$@"; do
 done
 git -C /repo checkout -- .
 rm -rf /verif/evidence && mv /verif/.build/evidence_backup /verif/evidence
+(cd /verif && python3 -c "import verif; verif.translate()" >/dev/null 2>&1)
 git -C /repo status --short
